@@ -94,20 +94,22 @@ def _static(
 ) -> bytes:
     result = b'Error: could not find static files '
     fn = fn.lstrip('/')  # since a URL, remove all leading /
+    found = False
     for d in [Path(dawgie.context.fe_path).resolve(), Path(bdir).resolve()]:
         ffn = (d / fn).resolve()
 
+        if ffn.is_dir():
+            ffn = (ffn / 'index.html').resolve()
         if not ffn.is_relative_to(d):
             result += b'attempted jail break'
             LOG.error('tried a jailbreak with %s from %s', ffn, d)
             continue
-        if ffn.is_dir():
-            ffn = ffn / 'index.html'
         if ffn.is_file():
+            found = True
             break
         result += bytes(ffn) + b'     '
 
-    if ffn.is_file():
+    if found:
         if isdep and ffn.suffix.lower() == '.html':
             with open(ffn, 'rt', encoding='utf-8') as f:
                 html = f.read()
